@@ -141,6 +141,26 @@ def main(tier, seed):
                 check_cpp(os.path.join(d, "cpp"), viol, st, rng)
             else:
                 check_js(os.path.join(d, "js"), viol, st)
+        if i % 3 == 1:
+            # C-only leg: the C backend also accepts traits and `impl Trait` parameters (cpp does not)
+            prog = tooltier.backend_program("c", seed, i, avoid_known=True, size="small", salt="c09tr")
+            if tooltier.add_traits(prog, rng, "c"):
+                emit_rust.assign_abi_names(prog)
+                d = toolrun.fresh_dir(toolrun.workdir("c09", "p%d_ctr" % i))
+                src, cfg = tooltier.write_program(prog, d, "")
+                rc, o, e = toolrun.run_tool("c", src, os.path.join(d, "c"), config_file=cfg)
+                kind, det = toolrun.classify_tool(rc, e)
+                if kind != "ok":
+                    inconc.append("p%d/c (traits) not accepted (%s): %s" % (i, kind, str(det)[:160]))
+                else:
+                    shp += ["c|%s" % s for s in (tooltier.spec.method_sig(t, m) for t, m in prog.methods())]
+                    rc, o, e = toolrun.rustc_lib(src, os.path.join(d, "lib.rlib"), crate_type="rlib")
+                    st["rustc"] += 1
+                    if rc != 0:
+                        viol.append(("rustc", "lib.rs", "macro expansion (traits) does not type-check: " + e[:900], {"src": src}))
+                    else:
+                        os.remove(os.path.join(d, "lib.rlib"))
+                    check_c(os.path.join(d, "c"), viol, st)
         return i, viol, st, inconc, shp
 
     results = pmap(one, range(nprog))
@@ -203,7 +223,7 @@ def main(tier, seed):
     chk.evaluations = stats["rustc"] + stats["c_headers"] + stats["cpp_headers_x_std"] + stats["cpp_all_orders"] + stats["mjs"]
     chk.distinct = shapes
     chk.rule = ("seeded valid modules (per backend profile) enriched with cyclic opaque/struct references, nested namespaces, renames, keyword-named parameters "
-                "and fields, conditional attributes on impl blocks; plus the repository's feature_tests and example bridges. Each accepted module: rustc on the "
+                "and fields, conditional attributes on impl blocks; a third of the programs also as a C-only variant with traits and `impl Trait` parameters; plus the repository's feature_tests and example bridges. Each accepted module: rustc on the "
                 "macro expansion; gcc -std=c11 -fsyntax-only on every .h alone; g++ -std=c++17 and c++20 -fsyntax-only on every .hpp alone and all headers "
                 "in shuffled orders; node --check on every .mjs; every #include/import target must exist and export the imported names. "
                 "distinct_nontrivial = distinct (backend, method shape) pairs of accepted programs.")
